@@ -95,6 +95,22 @@ M: List[Tuple[str, str, str, str, str]] = [
     ('c10-reverse-upstream-leak', 'C10', 'proxy/http/server/reverse.py',
      "            logger.debug('Closing upstream server connection')\n            self.upstream.close()",
      "            logger.debug('Closing upstream server connection')\n            if self.upstream.has_buffer():\n                self.upstream.close()"),
+    # ---- C20 ---------------------------------------------------------------
+    ('c20-no-buffer-guard', 'C20', 'proxy/http/handler.py',
+     "        if not self.work.has_buffer() and \\\n                self._connection_inactive_for() > self.flags.timeout:",
+     "        if self._connection_inactive_for() > self.flags.timeout:"),
+    ('c20-writes-not-activity', 'C20', 'proxy/http/handler.py',
+     "            logger.debug('Client is write ready, flushing...')\n            self.last_activity = time.time()",
+     "            logger.debug('Client is write ready, flushing...')"),
+    ('c20-reaper-only-when-tick-resets', 'C20', 'proxy/core/work/threadless.py',
+     "                    tick = 0\n                tick += 1",
+     "                    tick = 0\n                tick += 1 if len(self.works) < 2 else 0"),
+    ('c20-threaded-no-idle-check', 'C20', 'proxy/http/handler.py',
+     "                if self.is_inactive():\n                    logger.debug(",
+     "                if self.is_inactive() and self.plugin is not None:\n                    logger.debug("),
+    ('c20-timeout-from-start', 'C20', 'proxy/http/handler.py',
+     "        return time.time() - self.last_activity",
+     "        return time.time() - (self.last_activity if self.request.is_complete else self.start_time)"),
 ]
 
 
